@@ -121,8 +121,9 @@ PROPS = {
     },
     "C13": {
         "title": "Added types are exact and deduplicated",
-        "units": ["V7_types"],
+        "units": ["V7_types", "V12_sections"],
         "obligations": ["V7_types.add_*", "V7_types.fn:ModuleTypes::add_*", "V7_types.ModuleTypes.*", "V7_types.fn:ModuleTypes::new", "V7_types.fn:ModuleTypes::get", "V7_types.fn:ModuleTypes::len", "V7_types.fn:RecGroup::new"],
+        "obligations_extra": ["V12_sections.encode_type_section.*", "V12_sections.fn:Module::encode_type_section"],
         "glue": ["recursion-group emission in encode_internal and Module::encode_type (IR type -> wasm-encoder SubType) are not under contract",
                  "TRUSTED: the hand-written PartialEq / Hash of `Types` implement equality up to the tag (key_of), and the three HashMap<Types,TypeID> operations behave as a map over that key (contracts of tm_contains_key / tm_entry_or_insert / tm_insert / tm_get)"],
         "design_ref": "DESIGN.md §4 V7, §5 C13",
